@@ -26,6 +26,12 @@ _OPEN = (types.SimpleNamespace, _dt.timedelta, _dt.datetime, _dt.date, _dt.time,
 _STD_CLASSES = (_dt.timezone, _dt.datetime, _dt.date, _dt.time, _dt.timedelta)     # standard-library classes whose attributes / constructors may be used
 
 
+import functools as _functools
+import operator as _operator
+
+_CALLABLE_VALUES = (types.FunctionType, types.MethodType, types.BuiltinFunctionType, _operator.methodcaller, _operator.attrgetter, _operator.itemgetter, _functools.partial)
+
+
 class Stub(types.SimpleNamespace):
     """a stub value built by a checker; when it carries `_eqkey` it compares like the thing it stands for (e.g. two aware
     datetimes with the same tzinfo compare by their wall clock fields, whatever their fold)"""
@@ -287,7 +293,8 @@ def ev(n: ast.AST, env: dict[str, Any], funcs: dict[str, ast.FunctionDef] | None
                 return vars(tgt)["_ctor"](*args, **kws)
             if isinstance(tgt, ClassStub):
                 return tgt(*args, **kws)
-            if tgt in (_dt.timedelta, _dt.date, _dt.datetime, _dt.time) or isinstance(tgt, (types.BuiltinFunctionType, types.FunctionType)) and n.func.id not in env:
+            if tgt in (_dt.timedelta, _dt.date, _dt.datetime, _dt.time, _operator.methodcaller, _operator.attrgetter, _operator.itemgetter) \
+                    or isinstance(tgt, (types.BuiltinFunctionType, types.FunctionType)) and n.func.id not in env:
                 # a standard-library constructor / function the world put into the globals (timedelta, copysign, ...)
                 try:
                     return tgt(*args, **kws)
@@ -309,10 +316,11 @@ def ev(n: ast.AST, env: dict[str, Any], funcs: dict[str, ast.FunctionDef] | None
                 # a function of another analysed module: evaluated with that module's own functions and globals
                 f_other, funcs_other = funcs[n.func.id]
                 return call(f_other, args, kws, funcs_other, depth + 1)
-        if isinstance(n.func, ast.Call) or (isinstance(n.func, ast.Name) and callable(env.get(n.func.id))
-                                            and isinstance(env.get(n.func.id), (types.FunctionType, types.BuiltinFunctionType, types.MethodType))):
+        _g = (funcs.get("$globals") or {}) if isinstance(funcs.get("$globals"), dict) else {}
+        _loc = env.get(n.func.id, _g.get(n.func.id)) if isinstance(n.func, ast.Name) else None
+        if isinstance(n.func, ast.Call) or (isinstance(n.func, ast.Name) and callable(_loc) and isinstance(_loc, _CALLABLE_VALUES)):
             f = ev(n.func, env, funcs, depth)
-            if isinstance(f, (types.FunctionType, types.MethodType, types.BuiltinFunctionType)):
+            if isinstance(f, _CALLABLE_VALUES):
                 return f(*args, **kws)
         if isinstance(n.func, ast.Attribute):
             recv = ev(n.func.value, env, funcs, depth)
@@ -536,6 +544,28 @@ def module_consts(m) -> dict[str, Any]:
                 continue
             if _plain(v):
                 out[tgt.id] = v
+    # constants built by a standard-library functor constructor (operator.methodcaller("add", days=1), attrgetter, itemgetter) from literals
+    names = {}
+    for st in m.tree.body:
+        if isinstance(st, ast.ImportFrom) and st.module == "operator":
+            for a in st.names:
+                if a.name in ("methodcaller", "attrgetter", "itemgetter"):
+                    names[a.asname or a.name] = getattr(_operator, a.name)
+        elif isinstance(st, ast.Import):
+            for a in st.names:
+                if a.name == "operator":
+                    names[a.asname or "operator"] = Stub(methodcaller=_operator.methodcaller, attrgetter=_operator.attrgetter, itemgetter=_operator.itemgetter)
+    if names:
+        for st in m.top():
+            tgt = st.targets[0] if isinstance(st, ast.Assign) and len(st.targets) == 1 else st.target if isinstance(st, ast.AnnAssign) else None
+            v = getattr(st, "value", None)
+            if isinstance(tgt, ast.Name) and tgt.id not in out and isinstance(v, ast.Call):
+                d = _core.dotted(v.func) or ""
+                if d in names or (d.split(".")[0] in names and d.split(".")[-1] in ("methodcaller", "attrgetter", "itemgetter")):
+                    try:
+                        out[tgt.id] = ev(v, dict(out), {"$globals": names})
+                    except Exception:       # noqa: BLE001
+                        pass
     return out
 
 
